@@ -445,6 +445,25 @@ func runCase(line string) (res string) {
 	return b.String()
 }
 
+// blankMarks: when the analysis ends with ErrNoLeader no parser is generated, and the marks that components met
+// earlier (in map order) already carry are not a result; they are blanked so that they do not count as a difference.
+func blankMarks(o string) string {
+	f := strings.Split(o, " ")
+	if len(f) < 2 || f[0] != "noleader" {
+		return o
+	}
+	n, err := strconv.Atoi(f[1])
+	if err != nil {
+		return o
+	}
+	for k := 0; k < n; k++ {
+		if i := 2 + 5*k; i+3 < len(f) {
+			f[i+2], f[i+3] = "-", "-"
+		}
+	}
+	return strings.Join(f, " ")
+}
+
 func detCase(line string, k int) string {
 	id, rules, _ := parseCase(line)
 	seen := map[string]int{}
@@ -469,7 +488,7 @@ func detCase(line string, k int) string {
 			} else if have {
 				verdict = "ok1"
 			}
-			o := outcome(list, verdict)
+			o := blankMarks(outcome(list, verdict))
 			if seen[o] == 0 {
 				order = append(order, o)
 			}
@@ -484,8 +503,60 @@ func detCase(line string, k int) string {
 	return b.String()
 }
 
+// dupCase: the analysis must look at the definitions the generated parser runs. A rule name may be defined more
+// than once (pigeon accepts that silently); references resolve to the LAST definition (parser.buildRulesTable), so
+// earlier definitions of a non-first rule are dead text: inserting such a shadowed definition must not change the
+// verdict of builder.PrepareGrammar. The decoy is derived from the case id: a literal, a directly left-recursive
+// body, or the body of a neighbour rule.
+func dupCase(line string) (res string) {
+	id, rules, _ := parseCase(line)
+	verdictOf := func(list []*ast.Rule) (v string) {
+		defer func() {
+			if e := recover(); e != nil {
+				v = "panic"
+			}
+		}()
+		have, err := builder.PrepareGrammar(&ast.Grammar{Rules: list})
+		switch {
+		case err != nil:
+			return "noleader"
+		case have:
+			return "ok1"
+		}
+		return "ok0"
+	}
+	plain, _ := buildRules(rules)
+	v1 := verdictOf(plain)
+	list, _ := buildRules(rules)
+	var out []*ast.Rule
+	ndecoys := 0
+	for k, r := range list {
+		if k > 0 && (id+k)%2 == 0 {
+			d := ast.NewRule(p0, ast.NewIdentifier(p0, r.Name.Val))
+			switch (id / 2 + k) % 3 {
+			case 0:
+				d.Expr = ast.NewLitMatcher(p0, "a")
+			case 1:
+				seq := ast.NewSeqExpr(p0)
+				ref := ast.NewRuleRefExpr(p0)
+				ref.Name = ast.NewIdentifier(p0, r.Name.Val)
+				seq.Exprs = []ast.Expression{ref, ast.NewLitMatcher(p0, "x")}
+				d.Expr = seq
+			default:
+				d.Expr = build(rules[(k+1)%len(rules)].expr)
+			}
+			out = append(out, d)
+			ndecoys++
+		}
+		out = append(out, r)
+	}
+	v2 := verdictOf(out)
+	return fmt.Sprintf("dup %d %d %s %s", id, ndecoys, v1, v2)
+}
+
 func main() {
 	var (
+		doDup  = flag.Bool("dup", false, "verdict of PrepareGrammar with and without shadowed duplicate definitions of non-first rules")
 		doGen  = flag.Bool("gen", false, "generate cases")
 		doRun  = flag.Bool("run", false, "run cases from stdin on the real analysis")
 		det    = flag.Int("det", 0, "run PrepareGrammar this many times per case")
@@ -507,7 +578,9 @@ func main() {
 		if !strings.HasPrefix(line, "mid ") {
 			continue
 		}
-		if *doRun {
+		if *doDup {
+			fmt.Fprintln(w, dupCase(line))
+		} else if *doRun {
 			fmt.Fprintln(w, runCase(line))
 		} else if *det > 0 {
 			fmt.Fprintln(w, detCase(line, *det))
